@@ -148,7 +148,7 @@ func equalStrings(a, b []string) bool {
 func TestVerif_C14(t *testing.T) {
 	r := newRun(t, "C14")
 	r.Rule("exhaustive: every string over {a,b,',',SP,HTAB} up to length N as 1 line and in every 2-line split, against 6 name sets; " +
-		"structured: PRNG sets of prefix-related/long names x element atoms x OWS 0-3 x empties 0-20 x 1-4 lines; window-edge family; 1% also through NewMiddleware+preflight. " +
+		"structured: PRNG sets of prefix-related/long names x element atoms x OWS 0-3 x empties 0-20 x 1-4 lines; window-edge family; canonical-first-line family; enumerated strings up to length 6/7, 20% of the structured inputs and the whole canonical-first-line family also through NewMiddleware+preflight. " +
 		"non-trivial = the input contains at least one allowed name as an element core (distinct by construction for the enumeration, by hash for sampled inputs)")
 	r.Assume("specification S5 transcribes the statement of C14; the harness calls headers.Check with the same API the repository's own tests use")
 
@@ -164,6 +164,7 @@ func TestVerif_C14(t *testing.T) {
 	// ---- part 1: exhaustive small-alphabet enumeration
 	alphabet := []byte{'a', 'b', ',', ' ', '\t'}
 	maxLen := pick(r, 10, 12)
+	apiLen := pick(r, 6, 7) // strings up to this length also go through NewMiddleware + preflight
 	sets := [][]string{{"a"}, {"a", "b"}, {"ab"}, {"a", "ab", "b"}, {"b", "ba"}, {"aab", "b"}}
 	// batches: fix the first 3 symbols (125 prefixes) per length
 	type job struct{ n, prefix int }
@@ -202,15 +203,16 @@ func TestVerif_C14(t *testing.T) {
 			}
 			s := string(buf)
 			hasName := strings.ContainsAny(s, "ab")
+			viaAPI := j.n <= apiLen
 			for _, cs := range css {
 				lines1[0] = s
-				c14RunCase(r, l, cs, lines1, false)
+				c14RunCase(r, l, cs, lines1, viaAPI)
 				if hasName {
 					l.nontrivN++
 				}
 				for cut := 0; cut <= len(s); cut++ {
 					lines2[0], lines2[1] = s[:cut], s[cut:]
-					c14RunCase(r, l, cs, lines2, false)
+					c14RunCase(r, l, cs, lines2, viaAPI)
 					if hasName {
 						l.nontrivN++
 					}
@@ -360,7 +362,7 @@ func TestVerif_C14(t *testing.T) {
 					lines = append(lines, "")
 				}
 			}
-			api := rng.IntN(100) == 0
+			api := rng.IntN(5) == 0
 			c14RunCase(r, l, cs, lines, api)
 			joined := strings.Join(lines, "\n")
 			for _, n := range names {
@@ -371,6 +373,41 @@ func TestVerif_C14(t *testing.T) {
 			}
 			if i < 2 && l.Batch < 2 {
 				l.Sample("structured", c14Case{names, lines, api})
+			}
+		}
+	})
+
+	// ---- part 2b: first field line = the complete canonical list (what the middleware precomputes for debug mode),
+	// followed by lines that are fine or carry a violation - all through the public API
+	r.Parallel(pick(r, 8, 64), func(l *Local) {
+		rng := l.Rng
+		pool := []string{"x", "xa", "xab", "x-a", "content-type", "content-typ", "x-listed-1", "x-listed-2", "authorization", "z", "a", "b", "ab"}
+		for i := 0; i < pick(r, 400, 3000); i++ {
+			n := 1 + rng.IntN(4)
+			seen := map[string]bool{}
+			var names []string
+			for len(names) < n {
+				x := choose(rng, pool)
+				if !seen[x] {
+					seen[x] = true
+					names = append(names, x)
+				}
+			}
+			cs := newC14Set(names)
+			sorted := append([]string(nil), names...)
+			sort.Strings(sorted)
+			full := strings.Join(sorted, ",")
+			tails := [][]string{{"x-evil"}, {sorted[0]}, {sorted[len(sorted)-1]}, {strings.Repeat(",", 20)}, {"  " + sorted[0]}, {""}, {"", ""}, {"zzzz"},
+				{sorted[len(sorted)-1] + ",x-evil"}, {strings.ToUpper(sorted[0])}, {"x-evil", sorted[0]}}
+			for _, tail := range tails {
+				for _, first := range []string{full, full + ",", " " + full, full + " ", strings.Join(sorted[:len(sorted)-1+rng.IntN(2)], ",")} {
+					lines := append([]string{first}, tail...)
+					c14RunCase(r, l, cs, lines, true)
+					l.NontrivialKey(full, strings.Join(lines, "\n"))
+				}
+			}
+			if l.Batch == 0 && i == 0 {
+				l.Sample("canonical-first-line", c14Case{names, []string{full, "x-evil"}, true})
 			}
 		}
 	})
